@@ -41,18 +41,28 @@ theorem sum_set (l : List Nat) (i x : Nat) (h : i < l.length) : (l.set i x).sum 
       have := ih i (by simpa using h)
       omega
 
-theorem histoAdd_inv (h : Histo) (n : Nat) (items : List Nat) (v : Nat) (hi : HistoInv h n items) (hv : v < n)
+/-- the data part of `HistoInv` (the `≤ 128` commands branch of the fast writer keeps no total) -/
+structure DataInv (d : List Nat) (n : Nat) (items : List Nat) : Prop where
+  len : d.length = n
+  sum : d.sum = items.length
+  mem : ∀ s, d.getD s 0 ≠ 0 ↔ s ∈ items
+
+theorem HistoInv.toData {h : Histo} {n : Nat} {items : List Nat} (hi : HistoInv h n items) :
+    DataInv h.data n items := ⟨hi.len, hi.sum, hi.mem⟩
+
+theorem HistoInv.ofData {h : Histo} {n : Nat} {items : List Nat} (hd : DataInv h.data n items)
+    (ht : h.total = items.length) : HistoInv h n items := ⟨hd.len, hd.sum, ht, hd.mem⟩
+
+theorem histoAdd_data (h : Histo) (n : Nat) (items : List Nat) (v : Nat) (hi : DataInv h.data n items) (hv : v < n)
     (hb : items.length + 1 < two32) :
-    ∃ h', histoAdd h v = .ok h' ∧ HistoInv h' n (items ++ [v]) := by
+    ∃ h', histoAdd h v = .ok h' ∧ DataInv h'.data n (items ++ [v]) ∧ h'.total = (h.total + 1) % two64 := by
   have hvl : v < h.data.length := by rw [hi.len]; exact hv
   have hle := getElem_le_sum h.data v hvl
   rw [hi.sum] at hle
   unfold histoAdd
   rw [List.getElem?_eq_getElem hvl]
   have e1 : (h.data[v] + 1) % two32 = h.data[v] + 1 := Nat.mod_eq_of_lt (by omega)
-  have e2 : (h.total + 1) % two64 = items.length + 1 := by
-    rw [hi.total]; exact Nat.mod_eq_of_lt (by unfold two64; unfold two32 at hb; omega)
-  refine ⟨_, rfl, ⟨by simp [hi.len], ?_, by simp [e2], ?_⟩⟩
+  refine ⟨_, rfl, ⟨by simp [hi.len], ?_, ?_⟩, rfl⟩
   · simp only [e1]
     have := sum_set h.data v (h.data[v] + 1) hvl
     rw [hi.sum] at this
@@ -73,6 +83,15 @@ theorem histoAdd_inv (h : Histo) (n : Nat) (items : List Nat) (v : Nat) (hi : Hi
         · exact h
         · exact absurd h.symm hsv
 
+theorem histoAdd_inv (h : Histo) (n : Nat) (items : List Nat) (v : Nat) (hi : HistoInv h n items) (hv : v < n)
+    (hb : items.length + 1 < two32) :
+    ∃ h', histoAdd h v = .ok h' ∧ HistoInv h' n (items ++ [v]) := by
+  obtain ⟨h', e, d, t⟩ := histoAdd_data h n items v hi.toData hv hb
+  refine ⟨h', e, HistoInv.ofData d ?_⟩
+  rw [t, hi.total]
+  simp only [List.length_append, List.length_singleton]
+  exact Nat.mod_eq_of_lt (by unfold two64; unfold two32 at hb; omega)
+
 /-- `copy_len() ≠ 0 && cmd_prefix_ ≥ 128`: the command carries an explicit distance symbol -/
 def hasDist (c : Cmd) : Bool := decide (copyLen c ≠ 0) && decide (c.cmdPrefix ≥ 128)
 
@@ -84,25 +103,41 @@ def InRange (mb : Bytes) : Nat → List Cmd → Prop
   | _, [] => True
   | k, c :: cs => k + c.insertLen ≤ mb.length ∧ InRange mb (k + c.insertLen + copyLen c) cs
 
-theorem histoLits_inv (ring : Bytes) (mask start : Nat) (mb : Bytes) (hR : RingHolds ring mask start mb)
+theorem histoLits_data (ring : Bytes) (mask start : Nat) (mb : Bytes) (hR : RingHolds ring mask start mb)
     (h256 : ∀ b ∈ mb, b < 256) :
-    ∀ (n k : Nat) (h : Histo) (items : List Nat), HistoInv h 256 items → k + n ≤ mb.length →
+    ∀ (n k : Nat) (h : Histo) (items : List Nat), DataInv h.data 256 items → h.total < two64 → k + n ≤ mb.length →
       items.length + n < two32 →
       ∃ h', histoLits ring mask n (posOf start k) h = .ok (h', posOf start (k + n)) ∧
-        HistoInv h' 256 (items ++ (mb.drop k).take n) := by
+        DataInv h'.data 256 (items ++ (mb.drop k).take n) ∧ h'.total = (h.total + n) % two64 := by
   intro n
   induction n with
-  | zero => intro k h items hi _ _; exact ⟨h, by simp [histoLits], by simpa using hi⟩
+  | zero =>
+    intro k h items hi ht _ hb
+    refine ⟨h, by simp [histoLits], by simpa using hi, ?_⟩
+    rw [Nat.add_zero, Nat.mod_eq_of_lt ht]
   | succ n ih =>
-    intro k h items hi hk hb
+    intro k h items hi ht hk hb
     have hk' : k < mb.length := by omega
-    obtain ⟨h1, e1, i1⟩ := histoAdd_inv h 256 items (mb.getD k 0) hi (h256 _ (getD_mem mb k hk')) (by omega)
-    obtain ⟨h2, e2, i2⟩ := ih (k + 1) h1 _ i1 (by omega) (by simp; omega)
-    refine ⟨h2, ?_, ?_⟩
+    obtain ⟨h1, e1, i1, t1⟩ := histoAdd_data h 256 items (mb.getD k 0) hi (h256 _ (getD_mem mb k hk')) (by omega)
+    obtain ⟨h2, e2, i2, t2⟩ := ih (k + 1) h1 _ i1 (by rw [t1]; exact Nat.mod_lt _ (by decide)) (by omega) (by simp; omega)
+    refine ⟨h2, ?_, ?_, ?_⟩
     · unfold histoLits
       rw [hR k hk', Out.bind_ok, e1, Out.bind_ok, posOf_add, e2, show k + 1 + n = k + (n + 1) by omega]
     · rw [drop_take_succ mb k n hk']
       simpa [List.append_assoc] using i2
+    · rw [t2, t1, Nat.mod_add_mod, Nat.add_assoc, Nat.add_comm 1 n]
+
+theorem histoLits_inv (ring : Bytes) (mask start : Nat) (mb : Bytes) (hR : RingHolds ring mask start mb)
+    (h256 : ∀ b ∈ mb, b < 256) (n k : Nat) (h : Histo) (items : List Nat) (hi : HistoInv h 256 items)
+    (hk : k + n ≤ mb.length) (hb : items.length + n < two32) :
+    ∃ h', histoLits ring mask n (posOf start k) h = .ok (h', posOf start (k + n)) ∧
+      HistoInv h' 256 (items ++ (mb.drop k).take n) := by
+  have h64 : two32 < two64 := by decide
+  obtain ⟨h', e, d, t⟩ := histoLits_data ring mask start mb hR h256 n k h items hi.toData
+    (by rw [hi.total]; omega) hk hb
+  refine ⟨h', e, HistoInv.ofData d ?_⟩
+  rw [t, hi.total, List.length_append, List.length_take, List.length_drop, Nat.min_eq_left (by omega)]
+  exact Nat.mod_eq_of_lt (by omega)
 
 theorem litsOf_length (mb : Bytes) : ∀ (cmds : List Cmd) (k : Nat), InRange mb k cmds →
     (litsOf mb k cmds).length ≤ mb.length - k := by
@@ -183,6 +218,38 @@ theorem buildHistograms_inv (ring : Bytes) (mask start : Nat) (mb : Bytes) (hR :
         split <;> simp
       rw [this]
       simpa [List.append_assoc] using j3
+
+/-- the literal histogram loop of the `n_commands ≤ 128` branch of the fast writer -/
+theorem fastLitHisto_inv (ring : Bytes) (mask start : Nat) (mb : Bytes) (hR : RingHolds ring mask start mb)
+    (h256 : ∀ b ∈ mb, b < 256) :
+    ∀ (cmds : List Cmd) (k : Nat) (d : List Nat) (L : List Nat), DataInv d 256 L → InRange mb k cmds →
+      L.length + (mb.length - k) < two32 →
+      ∃ d', fastLitHisto ring mask cmds (posOf start k) d L.length
+          = .ok (d', L.length + (litsOf mb k cmds).length) ∧ DataInv d' 256 (L ++ litsOf mb k cmds) := by
+  intro cmds
+  induction cmds with
+  | nil => intro k d L hd _ _; exact ⟨d, by simp [fastLitHisto, litsOf], by simpa [litsOf] using hd⟩
+  | cons c cs ih =>
+    intro k d L hd hr hb
+    obtain ⟨hr1, hr2⟩ := hr
+    obtain ⟨h1, e1, d1, _⟩ := histoLits_data ring mask start mb hR h256 c.insertLen k ⟨d, 0⟩ L hd (by show (0 : Nat) < two64; decide) hr1 (by omega)
+    have hl1 : ((mb.drop k).take c.insertLen).length = c.insertLen := by
+      rw [List.length_take, List.length_drop]; omega
+    obtain ⟨d', e2, d2⟩ := ih (k + c.insertLen + copyLen c) h1.data (L ++ (mb.drop k).take c.insertLen) d1 hr2
+      (by simp only [List.length_append, hl1]; omega)
+    refine ⟨d', ?_, ?_⟩
+    · unfold fastLitHisto
+      rw [e1, Out.bind_ok]
+      simp only
+      have hmod : (L.length + c.insertLen) % two64 = L.length + c.insertLen :=
+        Nat.mod_eq_of_lt (by have : two32 < two64 := by decide
+                             omega)
+      rw [posOf_add, hmod]
+      simp only [List.length_append, hl1] at e2
+      rw [e2]
+      simp [litsOf, hl1]
+      omega
+    · simpa [litsOf, List.append_assoc] using d2
 
 /-- a lockstep array keeps its literal runs inside the meta-block -/
 theorem lockstep_inRange (wo : WordOracle) (np nd window : Nat) (mb : Bytes) :
